@@ -93,11 +93,11 @@ def engine(ctx):
         except Exception:
             pass
     t0 = time.time()
-    n = ctx.n(64, 400)
+    n = ctx.n(64, 300)
     base = ctx.seed * 100000
     cases = [gfi_run.make_case(base + s, depth=(2 if s % 3 else 3)) for s in range(n)]
     # malformed stream (C22): static bodies that trace one address twice
-    ndup = ctx.n(6, 30)
+    ndup = ctx.n(6, 20)
     k = 0
     while sum(1 for c in cases if c["flavour"] == "dup") < ndup and k < 40 * ndup:
         c = gfi_run.make_case(base + 50000 + k, depth=2, flavour="dup")
@@ -106,7 +106,7 @@ def engine(ctx):
             cases.append(c)
     # targeted stream: every combinator as the root of some programs (see gfi_run.make_case)
     for ri, root in enumerate(ROOTS):
-        for j in range(ctx.n(2, 8)):
+        for j in range(ctx.n(2, 6)):
             cases.append(gfi_run.make_case(base + 60000 + 100 * ri + j, depth=2, flavour="root:" + root))
     outs = gfi_run.run_cases(cases, procs=14)
     t_impl = time.time() - t0
@@ -576,6 +576,12 @@ def oracle_C34(case, out):
     o = sim["res"][1]
     r = ref_of(case, o)
     for s in out["steps"]:
+        if s["kind"] == "subtrace" and s["res"][0] == "err":
+            pre = tuple(tuple(c) for c in s["addr"])
+            if any(k[:len(pre)] == pre for k in look_dict(o)):
+                bad.append(("get_subtrace raised at an address under which the trace holds choices",
+                            {"addr": s["addr"], "error": s["res"][1:]}))
+            continue
         if s["kind"] != "subtrace" or s["res"][0] != "ok":
             continue
         sc, lk = s["res"][1]
